@@ -493,6 +493,14 @@ func (d *cfgDynamic) toConfig(opts *options) (cfg *Config, err error) {
 }
 
 func (d *cfgDynamic) withValue(err *error, opts *options, fn func(value)) {
+	// Every evaluation gets a scope level of its own, chained to the level of
+	// the enclosing evaluation: a reference that is re-entered while it is
+	// being evaluated is found along the chain, evaluating a value a second
+	// time after its first evaluation has finished is not a cycle.
+	parentFields := opts.activeFields
+	opts.activeFields = newFieldSet(parentFields)
+	defer func() { opts.activeFields = parentFields }()
+
 	var v value
 	if v, *err = d.getValue(opts); *err == nil {
 		fn(v)
